@@ -1269,15 +1269,23 @@ impl<'a, 'b> InternalDelphiLogicalLineParser<'a, 'b> {
         }
     }
     fn skip_pair(&mut self) {
+        let opener = self.get_current_token_type();
         let paren_level = self.paren_level;
         let brack_level = self.brack_level;
         let generic_level = self.generic_level;
 
         self.next_token();
-        while (self.paren_level != paren_level
-            || self.brack_level != brack_level
-            || self.generic_level != generic_level)
-            && self.get_current_token_type().is_some()
+        while match opener {
+            // A `<` inside parens or brackets can be a comparison, so only the kind of pair that
+            // was opened decides when it is closed.
+            Some(TT::Op(OK::LParen)) => self.paren_level != paren_level,
+            Some(TT::Op(OK::LBrack)) => self.brack_level != brack_level,
+            _ => {
+                self.paren_level != paren_level
+                    || self.brack_level != brack_level
+                    || self.generic_level != generic_level
+            }
+        } && self.get_current_token_type().is_some()
         {
             self.next_token();
         }
